@@ -1,6 +1,7 @@
 import NakenVerif.Props.C03
 import NakenVerif.FileIO.ProofsUf2Read
 import NakenVerif.FileIO.ProofsTiTxt
+import NakenVerif.FileIO.ProofsAmiga
 /-
 C03 — the loaders `read_uf2` and `read_ti_txt` of naken_util.
 -/
@@ -47,6 +48,15 @@ theorem ti_txt_low_high (st sp a n : Nat) (hn : 0 < n) :
       rw [TiTxtProofs.updLo, TiTxtProofs.updHi, i1, i2]
       constructor <;> split <;> omega
 
+/-- **Amiga hunk.**  Decoding the written load file per the AmigaDOS hunk format (header table, hunk_code with its
+size in longwords ≤ the table entry, hunk_end, nothing after it): one hunk whose content is exactly the bytes of
+`[low, high]` (hunk files are relocatable: the address is not carried) followed by 0..3 zero bytes up to a whole longword.
+(`+ 3`: `(length + 3) / 4` is computed in `uint32_t`.) -/
+theorem amiga_roundtrip (img : Image) (h : img.WF) (hne : img.cells ≠ []) (h3 : img.cells.length + 3 < 4294967296) :
+    AmigaSpec.decode (AmigaImpl.write img) =
+      some [img.cells.map (fun c => c.getD 0) ++ List.replicate ((4 - img.cells.length % 4) % 4) 0] :=
+  AmigaProofs.decode_write img h hne h3
+
 /-! ### non-vacuity -/
 
 example : TiTxtSpec.encode 4 [(0xf800, [0x31, 0x40]), (0xfffe, [0x00, 0xf8])] = "@F800\n31 40 \n@FFFE\n00 F8 \nq\n".toList := by
@@ -56,5 +66,9 @@ example : TiTxtImpl.read "@F800\n31 40 \n@FFFE\n00 F8 \nq\n".toList =
   decide
 example : (Uf2ReadImpl.read (Uf2Impl.write { low := 0x10, cells := [some 1, none, some 3] })).writes.length = 512 := by
   rw [uf2_read_write _ (by decide)]; decide +kernel
+
+example : AmigaSpec.decode (AmigaImpl.write { low := 0x1000, cells := [some 0x4e, some 0x75, none, some 1, some 2] }) =
+    some [[0x4e, 0x75, 0, 1, 2, 0, 0, 0]] := by
+  rw [amiga_roundtrip _ (by decide) (by decide) (by decide)]; rfl
 
 end NakenVerif.C03
